@@ -40,7 +40,7 @@ def gen_hp(rng, kind):
 def gen_binz(rng, arms):
     c = rng.random()
     if c < 0.35:
-        return ("thr", [(a, dyadic(rng, -4, 4)) for a in arms if rng.random() < 0.8], dyadic(rng, -4, 4))
+        return ("thr", [(a, dyadic(rng, -4, 4)) for a in sorted(set(arms)) if rng.random() < 0.8], dyadic(rng, -4, 4))
     if c < 0.6:
         return ("flip",)
     if c < 0.85:
